@@ -356,7 +356,7 @@ _add(
          "configuration is compared (reported configuration, recordsz/dt/duration/inclusive of every internal "
          "RecordTensor, outputs from a cleared state on the same inputs). One evaluation = one assignment judged; "
          "distinct = (component kind, class, assigned attribute).",
-    required=["assignments_checked", "twin_comparisons", "output_comparisons", "assignments_after_use", "configured_dtype_checks", "resting_state_comparisons"],
+    required=["assignments_checked", "twin_comparisons", "output_comparisons", "assignments_after_use", "configured_dtype_checks", "resting_state_comparisons", "recurrent_layer_cases"],
     floor={"quick": 40, "thorough": 80},
     text="Held on every assignment sequence explored: each real property setter reports the assigned value back, leaves "
          "every other reported attribute unchanged, and the setter-built object is indistinguishable - configuration, "
